@@ -5,7 +5,7 @@
  *   clear                          forget the files of the current state
  *   file <name> <blob>             state: a file to create in the case's private directory before the tool runs
  *   case tool=<zck|unzck|zck_read_header|zck_delta_size|zck_gen_zdict|zckdl> args=<arg>,<arg>,...  (each arg hex encoded, "-" = empty)
- *        [closefds=<n>] [plan=<...>] [roles=<name>:<i|o|s|g>,...] [trace=1] [out=<name>,<name>...] [maxout=<bytes>]
+ *        [closefds=<n> | closemask=<bits>] [plan=<...>] [roles=<name>:<i|o|s|g>,...] [trace=1] [out=<name>,<name>...] [maxout=<bytes>]
  * the tool runs with the private directory as its working directory.
  * output: L <idx> exit=<code> sig=<n> killed=<0|1> mismatch= calls= stdout=<blob> f.<name>=<blob|ABSENT> ... [trace=...]
  */
@@ -104,7 +104,7 @@ static void run_one(int idx, FILE *out, void *vctx) {
         dup2(devnull, 0);
         if(devnull > 2) real_close(devnull);
         if(so > 2) real_close(so);
-        for(int i = 0; i < k->closefds; i++) real_close(i);
+        for(int i = 0; i < 3; i++) if(k->closefds >> i & 1) real_close(i);
         env_reset();
         if(k->roles) {
             char *r = strdup(k->roles), *save = NULL;
@@ -158,7 +158,7 @@ static void run_one(int idx, FILE *out, void *vctx) {
     rm_rf(dir);
     /* a sanitizer abort or a fatal signal of the tool is this case's crash */
     if(sig && sig != SIGALRM) { fflush(out); signal(sig, SIG_DFL); raise(sig); }
-    if(code == 99) { fflush(out); _exit(99); }
+    if(code == 99) { fflush(out); VF_EXIT(99); }
 }
 
 int cmd_tool(FILE *job, FILE *out) {
@@ -200,7 +200,8 @@ int cmd_tool(FILE *job, FILE *out) {
                 memcpy(k.args[k.nargs++], b.p, b.n);
                 blob_free(&b);
             }
-            k.closefds = (int)kvi(t, n, "closefds", 0);
+            k.closefds = (int)kvi(t, n, "closemask", 0);     /* bit i set: descriptor i is closed when the tool starts */
+            if(kv(t, n, "closefds", NULL)) k.closefds = (1 << kvi(t, n, "closefds", 0)) - 1;
             k.nplan = parse_plan(kv(t, n, "plan", "-"), k.plan, 8);
             const char *r = kv(t, n, "roles", NULL);
             k.roles = r ? strdup(r) : NULL;
